@@ -62,11 +62,22 @@ def apply(state, op):
     kind = op["kind"]
     if kind in ("sync", "checkpoint", "opendb", "hold"):
         return "OK", state
+    if kind == "dbdestroy":        # op["clear"]: the state slots of the database (records, metadata)
+        st = list(state)
+        for d in op["clear"]:
+            st[d] = ()
+        return "OK", tuple(st)
     d = op["db"]
     db = dict(state[d])
     if kind == "put":
         db[op["k"]] = op["v"]
         ans = "OK"
+    elif kind == "cset":           # cursor positioned on the key, then iwkv_cursor_set
+        if op["k"] in db:
+            db[op["k"]] = op["v"]
+            ans = "OK"
+        else:
+            ans = "NOTFOUND"
     elif kind == "get":
         ans = db[op["k"]] if op["k"] in db else "NOTFOUND"
         if ans == "":
@@ -86,10 +97,11 @@ def apply(state, op):
     return ans, tuple(st)
 
 
-def linearizable(calls, ndb, final):
-    """Wing & Gong search with memoisation; calls: list of dicts with inv,res,ans"""
+def linearizable(calls, ndb, final, init=None):
+    """Wing & Gong search with memoisation; calls: list of dicts with inv,res,ans; init: state before the first call"""
     n = len(calls)
-    init = tuple(() for _ in range(ndb))
+    if init is None:
+        init = tuple(() for _ in range(ndb))
     seen = set()
 
     def rec(done, state):
